@@ -157,16 +157,25 @@ def sibling_attached_attempts(run: Run, stream):
     import trees
 
     rng = run.rng
-    for _ in range(6):
+    for _ in range(40):
         pro = rng.choice(["<!--p-->", "<?pi p?>", "<!--a--><!--b-->", ""])
-        epi = rng.choice(["<!--e-->", "<?pi e?>", ""])
+        epi = rng.choice(["<!--e-->", "<?pi e?>", "<!--e1--><?pi e2?>", ""])
         if not pro and not epi:
             pro = "<!--p-->"
-        src = Document(pro + "<root><a/>t</root>" + epi)
-        tgt = Document("<target><x/></target>")
-        which = rng.choice(["doc-root", "chain-last", "chain-first"])
+        # the root's own content must not matter (an empty root, a root with text only, with children)
+        root_xml = rng.choice(["<root><a/>t</root>", "<root/>", "<root>t</root>", "<root><a/></root>"])
+        src = Document(pro + root_xml + epi)
+        tgt = Document(rng.choice(["<target><x/></target>", "<target><x/>t</target>"]))
+        which = rng.choice(["doc-root", "chain-last", "chain-first", "prologue-first", "prologue-last", "epilogue-first", "epilogue-last"])
+        if which.startswith("prologue") and not pro:
+            which = "epilogue" + which[8:]
+        if which.startswith("epilogue") and not epi:
+            which = "prologue" + which[8:]
         if which == "doc-root":
             offered = src.root
+        elif which.startswith(("prologue", "epilogue")):
+            cont = src.prologue if which.startswith("prologue") else src.epilogue
+            offered = cont[0] if which.endswith("first") else cont[-1]
         else:
             c1, c2 = new_comment_node("one"), new_processing_instruction_node("two", "d")
             with altered_default_filters():
@@ -174,7 +183,8 @@ def sibling_attached_attempts(run: Run, stream):
             offered = c2 if which == "chain-last" else c1
         amb = rng.choice(["none", "default"])
         how = rng.choice(["append", "add_following", "insert"])
-        case = {"attempt": {"why": "attached", "op": how, "offered": which, "ambient": amb, "prologue": pro, "epilogue": epi}}
+        case = {"attempt": {"why": "attached", "op": how, "offered": which, "ambient": amb, "prologue": pro, "epilogue": epi,
+                            "root": root_xml}}
         before = (str(src), trees.extract(tgt.root))
         raised = None
         try:
